@@ -1334,6 +1334,23 @@ bool SGXMLScanner::scanStartTag(bool& gotData)
         // be encountered if there continues to be no element decl--which
         // implies that this will have been initialized correctly.
         unsigned int orgGrammarUri = fEmptyNamespaceId;
+        if (!elemDecl && fGrammar == fSchemaGrammar) {
+            //  Still on the scanner's placeholder grammar (whose target namespace
+            //  is empty as well): a no-namespace grammar may be available from the
+            //  resolver, e.g. preloaded into the grammar pool. Not finding one is
+            //  not an error here; the element is then reported as not declared.
+            Grammar* noNSGrammar = fGrammarResolver->getGrammar(XMLUni::fgZeroLenString);
+            if (noNSGrammar && noNSGrammar->getGrammarType() == Grammar::SchemaGrammarType
+                && switchGrammar(XMLUni::fgZeroLenString)) {
+                elemDecl = fGrammar->getElemDecl
+                (
+                  uriId
+                  , nameRawBuf
+                  , qnameRawBuf
+                  , currentScope
+                );
+            }
+        }
         if (!elemDecl && (orgGrammarUri = fURIStringPool->getId(original_uriStr)) != fEmptyNamespaceId) {
             //not found, switch grammar and try globalNS
             bool errorCondition = !switchGrammar(XMLUni::fgZeroLenString) && fValidate;
